@@ -346,6 +346,10 @@ func c16System(k int, special bool) func() bfs.System {
 					before = u.observe(0, nil)
 					regBefore = deephash.Take(psatoken.VerifRegistrySave(), snapOpts)
 				}
+				var savedBefore any
+				if last {
+					savedBefore = psatoken.VerifRegistrySave()
+				}
 				rec := &sched.Recorder{}
 				if last {
 					attachHook(rec)
@@ -365,6 +369,37 @@ func c16System(k int, special bool) func() bfs.System {
 				}
 				after := u.observe(0, nil)
 				regAfter := deephash.Take(psatoken.VerifRegistrySave(), snapOpts)
+				if err == nil {
+					// "the same outcome on every call": the first JSON document decoded after the registration is judged like
+					// any later one, whatever was decoded just before the registration
+					savedAfter := psatoken.VerifRegistrySave()
+					jsonOutcome := func(n string) string {
+						cl, derr := psatoken.DecodeClaimsFromJSON(append([]byte{}, u.tokens[n][1]...))
+						if derr != nil {
+							return "json(" + n + ")=err"
+						}
+						return fmt.Sprintf("json(%s)=%T/%s", n, cl, errClass(cl.Validate()))
+					}
+					want := map[string]string{}
+					for _, v := range after.vec {
+						if strings.HasPrefix(v, "json(") {
+							want[v[:strings.Index(v, ")=")+2]] = v
+						}
+					}
+					for _, prev := range u.names {
+						for _, doc := range u.names {
+							psatoken.VerifRegistryRestore(savedBefore)
+							_ = jsonOutcome(prev)
+							if rerr := psatoken.RegisterProfile(op.prof); rerr != nil {
+								break
+							}
+							if got := jsonOutcome(doc); got != want["json("+doc+")="] {
+								fail("C16:json-dispatch-depends-on-earlier-call:"+op.name, "decode %s, then %s, then %s as the first document: %s; the same document later: %s", prev, op.name, doc, got, want["json("+doc+")="])
+							}
+						}
+					}
+					psatoken.VerifRegistryRestore(savedAfter)
+				}
 				nstores := 0
 				for _, e := range rec.Writes() {
 					if e.Kind == "gwrite" {
